@@ -124,6 +124,14 @@ func RunOracles(prop string, cases []GenCase, impl map[string]map[string]string)
 					viol(gc, "expired-context-executed", "an already-expired context did not prevent execution: output "+kv["o0"])
 				}
 			}
+		}
+		for _, ek := range runKeys(kv, "e") {
+			if kv[ek] != "" {
+				viol(gc, "wrote-to-standard-error", fmt.Sprintf("run %s wrote to standard error: %q", ek[1:], truncate(unhex(kv[ek]), 200)))
+				break
+			}
+		}
+		switch {
 		case gc.Role == "replica":
 			// the same script on the same object from the same variables gives the same outcome: when the first
 			// run left no variable behind (the evaluator holds exactly what it held before), the second run of
